@@ -1,5 +1,6 @@
 """C05 — JWT authentication accepts exactly the correctly signed, asserted tokens."""
 import collections
+import concurrent.futures
 import copy
 import json
 import os
@@ -29,10 +30,16 @@ def subst_srv(v, srv):
     return v
 
 
-def evaluate(exe, cases):
+def evaluate(exe, cases, isolate=False):
     """implementation run (mints the tokens, returns verdicts + abstract views), then the model/specification run on
-    the case extended by those abstract views"""
-    impl = vlib.run_cases([exe], cases, env=HARNESS_ENV, timeout=1500)
+    the case extended by those abstract views. isolate: every case in a harness process of its own (a case may
+    create other mechanisms - `neighbours` - in the process; what they leave behind must not reach the next
+    candidate of a shrinking round or a replay)"""
+    if isolate and len(cases) > 1:
+        with concurrent.futures.ThreadPoolExecutor(max_workers=8) as pool:
+            impl = list(pool.map(lambda c: vlib.run_cases([exe], [c], env=HARNESS_ENV, timeout=300)[0], cases))
+    else:
+        impl = vlib.run_cases([exe], cases, env=HARNESS_ENV, timeout=1500)
     dcases = []
     for c, i in zip(cases, impl):
         srv = (i.get("info") or {}).get("srv", "$SRV") if isinstance(i, dict) else "$SRV"
@@ -283,9 +290,11 @@ def ground_truth_applies(c, facts):
 
 
 def shrink(exe, case):
-    """greedy structural shrinking; all candidates of a round are evaluated in one batch"""
+    """greedy structural shrinking; all candidates of a round are evaluated in one batch (cases which create other
+    mechanisms in the process: every candidate in a process of its own)"""
     cur = copy.deepcopy(case)
     cur.pop("expect", None)      # the generator's ground truth does not survive structural edits
+    isolate = bool(case.get("neighbours"))
     for _ in range(16):
         cands = []
 
@@ -298,7 +307,21 @@ def shrink(exe, case):
             cands.append(c)
 
         for k in range(len(cur.get("pre") or [])):
-            edit(lambda c, k=k: c["pre"].pop(k))
+            def drop_pre(c, k=k):
+                c["pre"].pop(k)
+                for n in c.get("neighbours") or []:      # moments are request numbers
+                    if isinstance(n.get("at"), int) and n["at"] > k:
+                        n["at"] -= 1
+            edit(drop_pre)
+        for k, n in enumerate(cur.get("neighbours") or []):
+            edit(lambda c, k=k: c["neighbours"].pop(k))
+            if n.get("rule") is not None:
+                edit(lambda c, k=k: c["neighbours"][k].pop("rule"))
+            if n.get("at") != "before":
+                edit(lambda c, k=k: c["neighbours"][k].update(at="before"))
+            for f in list((n.get("conf") or {}).get("assertions") or {}):
+                if f not in ("issuers", "allowed_algorithms"):
+                    edit(lambda c, k=k, f=f: c["neighbours"][k]["conf"]["assertions"].pop(f))
         tok = cur.get("token")
         if tok:
             for k in range(len(tok.get("mut", []))):
@@ -339,7 +362,7 @@ def shrink(exe, case):
                 edit(lambda c, f=f: c["conf"].update({f: None}))
         if not cands:
             break
-        impl, model = evaluate(exe, cands)
+        impl, model = evaluate(exe, cands, isolate)
         nxt = None
         for c, i, m in zip(cands, impl, model):
             if judge(c, i, m)[0] in ("spec", "model"):
@@ -349,6 +372,38 @@ def shrink(exe, case):
             break
         cur = nxt
     return cur
+
+
+def alone(exe, cases, idx):
+    """A disagreement seen in the long-lived harness process, re-run in a process of its own. If it is gone the case
+    is the victim of what an earlier case left behind in the process: mechanisms are only ever created by the
+    authenticator under test and by `neighbours`, so the neighbours of the earlier cases are put in front of the
+    victim (each set in a process of its own) until the disagreement is back.
+    -> (case, impl, model, status, text) | None"""
+    c = cases[idx]
+    i, m = evaluate(exe, [c])
+    st, text = judge(c, i[0], m[0])
+    if st in BAD:
+        return c, i[0], m[0], st, text
+    seen, cands = set(), []
+    for e in cases[:idx]:
+        if e.get("neighbours"):
+            key = json.dumps(e["neighbours"], sort_keys=True)
+            if key not in seen:
+                seen.add(key)
+                v = copy.deepcopy(c)
+                v["neighbours"] = [dict(copy.deepcopy(n), at="before") for n in e["neighbours"]] + \
+                    list(v.get("neighbours") or [])
+                v["note"] = c.get("note", "") + " (after the mechanisms of an earlier case)"
+                cands.append(v)
+    for lo in range(0, min(len(cands), 48), 16):
+        part = cands[lo:lo + 16]
+        impl, model = evaluate(exe, part, isolate=True)
+        for v, i, m in zip(part, impl, model):
+            st, text = judge(v, i, m)
+            if st in BAD:
+                return v, i, m, st, text
+    return None
 
 
 # ---------------------------------------------------------------------------------------------------------------
@@ -405,13 +460,13 @@ def _run(R):
     by_subject = {}     # octets of a produced subject id -> the different string claims it was produced from
     bad = []
     samples, sampled = [], set()
-    for c, i, m in zip(cases, impl, model):
+    for idx, (c, i, m) in enumerate(zip(cases, impl, model)):
         st, text = judge(c, i, m)
         status[st] += 1
         if st == "known":
             R.known_hits[KNOWN_ATTRS] = R.known_hits.get(KNOWN_ATTRS, 0) + 1
         if st in BAD:
-            bad.append((c, i, m, st, text))
+            bad.append((idx, c, i, m, st, text))
         if not (isinstance(m, dict) and "stats" in m and isinstance(i, dict) and "res" in i):
             continue
         w = m["stats"]["why"]
@@ -436,6 +491,16 @@ def _run(R):
         dims["templated_endpoint"] += 1 if conf.get("templated") else 0
         dims["metadata_endpoint"] += 1 if c.get("mode") == "metadata" else 0
         dims["rule_level_config"] += 1 if c.get("rule") else 0
+        nbs = c.get("neighbours") or []
+        dims["neighbours"] += 1 if nbs else 0
+        dims["neighbour_mechanisms_created"] += sum(1 for x in info.get("neighbours") or [] if ":created" in str(x))
+        dims["neighbour_mechanisms_refused"] += sum(1 for x in info.get("neighbours") or [] if ":created" not in str(x))
+        dims["neighbours_with_lists_of_their_own"] += 1 if any(
+            "allowed_algorithms" in ((n.get("conf") or {}).get("assertions") or {}) for n in nbs) else 0
+        dims["neighbours_created_between_requests"] += 1 if any(isinstance(n.get("at"), int) and n["at"] > 0 for n in nbs) else 0
+        if nbs and not any("allowed_algorithms" in (x.get("assertions") or {}) for x in (conf, c.get("rule") or {})):
+            dims["neighbours_next_to_default_algorithms"] += 1
+            dims["neighbours_next_to_default_algorithms_accepted"] += 1 if i["res"].get("verdict") == "accept" else 0
         dims["cache_disabled"] += 1 if ((c.get("rule") or {}).get("cache_ttl") or conf.get("cache_ttl")) == "0s" else 0
         dims["non_ascii"] += 1 if any(ord(ch) > 127 for ch in json.dumps(gen_jwt.slim(c), ensure_ascii=False)) else 0
         steps = [st.get("token") for st in list(c.get("pre") or []) + [c]]
@@ -513,6 +578,10 @@ def _run(R):
         "certificate chain validation (pkix.ValidateCertificate), JWKS / metadata transport, go-jose parsing and gjson "
         "are validated by the correspondence run only; gjson paths are restricted to member names and array indices "
         "(anything else is reported as unmodelled and skipped)",
+        "other mechanisms of the process are jwt and oauth2_introspection authenticators (the types sharing "
+        "oauth2.Expectation and the default algorithm list) which are created, never executed; the model keeps the "
+        "default list of the process as explicit state (Model/JwtProcess.lean) and the correspondence run shows that "
+        "the real creations leave the authenticator under test alone",
         "sequences of requests are shorter than every cache TTL (>= 10 s) and use one authenticator instance; the "
         "HTTP cache of the metadata endpoint is not varied (the metadata document is the same for all requests of a case)",
         "numeric claims are exact decimals in the model; Go parses them as float64 (dates with more than 15 "
@@ -526,11 +595,23 @@ def _run(R):
         "counted as known, the implementation still has to agree with the (rounding) model",
     ]
     seen = set()
-    for c, i, m, st, text in bad[:40]:
+    for idx, c, i, m, st, text in bad[:40]:
         sig = re.sub(r'"[^"]*"', '".."', text)[:90]
         if sig in seen:
             continue
         seen.add(sig)
+        # the candidate is re-run in a process of its own before it is reported (the replay runs it that way)
+        again = alone(exe, cases, idx)
+        if again is None:
+            R.violation(text + " - only in the process of this run, after the cases before it; not reproduced by the "
+                        "case alone nor behind the mechanisms an earlier case created",
+                        {"case": gen_jwt.slim(c), "impl": i.get("res") if isinstance(i, dict) else i,
+                         "model": m.get("res") if isinstance(m, dict) else m, "kind": "process-history"},
+                        no_input=True)
+            if len(R.violations) >= 4:
+                break
+            continue
+        c, i, m, st, text = again
         sc = shrink(exe, c) if st in ("spec", "model") else c
         si, sm = evaluate(exe, [sc])
         st2, text2 = judge(sc, si[0], sm[0])
